@@ -1,326 +1,24 @@
 import Jp.Lemmas.Bridge
+import Jp.Lemmas.C15Helpers
 /-
   C15 — Resolve and assign errors locate the failing token by index and byte offset.
 -/
 namespace Jp.C15
 open Jp Jp.Spec
 
-/-- what C15 demands of `(position, offset, label)` for a failed walk on pointer text `p` -/
-def Locates (p : Bytes) (position offset : Nat) (label : Option (Nat × Nat)) : Prop :=
-  ∃ tok, (tokens p)[position]? = some tok ∧
-    offset = off (tokens p) position ∧
-    getToken p position = some tok ∧
-    splitAt p offset = some (ofToks ((tokens p).take position), ofToks ((tokens p).drop position)) ∧
-    ∃ o l, label = some (o, l) ∧ l = tok.length ∧ o + l ≤ p.length ∧
-      (0 < l → o = offset + 1) ∧ (l = 0 → o = offset ∨ o = offset + 1)
+-- def Locates … : see Jp/Lemmas/C15Helpers.lean
+-- what C15 demands of `(position, offset, label)` for a failed walk on pointer text `p`
+--   def Locates (p : Bytes) (position offset : Nat) (label : Option (Nat × Nat)) : Prop :=
+--     ∃ tok, (tokens p)[position]? = some tok ∧
+--       offset = off (tokens p) position ∧
+--       getToken p position = some tok ∧
+--       splitAt p offset = some (ofToks ((tokens p).take position), ofToks ((tokens p).drop position)) ∧
+--       ∃ o l, label = some (o, l) ∧ l = tok.length ∧ o + l ≤ p.length ∧
+--         (0 < l → o = offset + 1) ∧ (l = 0 → o = offset ∨ o = offset + 1)
 
 -- OBLIGATIONS
 -- resolve_err_locates resolveMut_err_locates assign_err_locates resolve_payload assign_payload
 -- label_covers_token
-
-/-! ### helper lemmas -/
-
-theorem off_step (ts : List Bytes) (k : Nat) (tok : Bytes) (h : ts[k]? = some tok) :
-    off ts (k + 1) = off ts k + 1 + tok.length := by
-  induction ts generalizing k with
-  | nil => simp at h
-  | cons t ts ih =>
-    cases k with
-    | zero => simp at h; subst h; simp [off]
-    | succ k =>
-      simp at h
-      rw [off_succ, off_succ, ih k h]; omega
-
-theorem drop_of_get (ts : List Bytes) (k : Nat) (tok : Bytes) (h : ts[k]? = some tok) :
-    ts.drop k = tok :: ts.drop (k + 1) := by
-  obtain ⟨hk, rfl⟩ := List.getElem?_eq_some_iff.mp h
-  exact List.drop_eq_getElem_cons hk
-
-theorem off_step_le (ts : List Bytes) (k : Nat) (tok : Bytes) (h : ts[k]? = some tok) :
-    off ts k + 1 + tok.length ≤ (ofToks ts).length := by
-  rw [← off_step ts k tok h]; exact off_le ts (k + 1)
-
-theorem splitAt_off (ts : List Bytes) (k : Nat) (tok : Bytes) (h : ts[k]? = some tok) :
-    splitAt (ofToks ts) (off ts k) = some (ofToks (ts.take k), ofToks (ts.drop k)) := by
-  have hb : (ofToks ts)[off ts k]? = some 47 := by
-    rw [← List.head?_drop, drop_off, drop_of_get ts k tok h, ofToks_cons]; rfl
-  simp [splitAt, hb, take_off, drop_off]
-
-theorem locates_of (p : Bytes) (ts : List Bytes) (hp : p = ofToks ts) (htk : tokens p = ts)
-    (k : Nat) (tok : Bytes) (h : ts[k]? = some tok) :
-    Locates p k (off ts k) (walkLabel p k (off ts k)) := by
-  have hle := off_step_le ts k tok h
-  rw [← hp] at hle
-  refine ⟨tok, by rw [htk]; exact h, by rw [htk], by simp only [getToken, htk]; exact h, ?_, ?_⟩
-  · rw [htk, hp]; exact splitAt_off ts k tok h
-  · have hg : getToken p k = some tok := by simp only [getToken, htk]; exact h
-    simp only [walkLabel, hg]
-    refine ⟨_, _, rfl, rfl, ?_, ?_, ?_⟩
-    · split <;> omega
-    · intro hl; split <;> omega
-    · intro hl; split <;> simp
-
-/-- the error `e` is what one step of `resolve` on node `n` with token `tok` reports -/
-def RFail (n : Val) (tok : Bytes) (pos o : Nat) (e : ResolveErr) : Prop :=
-  (∃ s, n = .scalar s ∧ e = .unreachable pos o) ∨
-  (∃ kvs, n = .obj kvs ∧ e = .notFound pos o) ∨
-  (∃ xs src, n = .arr xs ∧ Index.fromStr tok = .err src ∧ e = .failedToParseIndex pos o src) ∨
-  (∃ xs idx, n = .arr xs ∧ e = .outOfBounds pos o ⟨xs.length, idx⟩ ∧
-    ((tok = [45] ∧ idx = xs.length) ∨ (pidx tok = .num idx ∧ xs.length ≤ idx)))
-
-theorem forLen_err {i : Index} {len : Nat} {s : OobErr} (h : i.forLen len = .err s) :
-    (i = .next ∧ s = ⟨len, len⟩) ∨ (∃ n, i = .num n ∧ s = ⟨len, n⟩ ∧ len ≤ n) := by
-  cases i with
-  | next => simp [Index.forLen] at h; exact Or.inl ⟨rfl, h.symm⟩
-  | num n =>
-    simp only [Index.forLen] at h
-    split at h
-    · cases h
-    · cases h; exact Or.inr ⟨n, rfl, rfl, by omega⟩
-
-theorem forLen_ok {i : Index} {len idx : Nat} (h : i.forLen len = .ok idx) : i = .num idx := by
-  cases i with
-  | next => simp [Index.forLen] at h
-  | num n =>
-    simp only [Index.forLen] at h
-    split at h
-    · cases h; rfl
-    · cases h
-
-theorem toIndex_ok_num {t : Bytes} {n : Nat} (h : Token.toIndex t = .ok (.num n)) : pidx t = .num n := by
-  have := toIndex_pidx t; rw [h] at this; exact this
-
-theorem toIndex_ok_next {t : Bytes} (h : Token.toIndex t = .ok .next) : t = [45] := by
-  have := toIndex_pidx t; rw [h] at this; exact (pidx_next_iff t).mp this
-
-theorem resolveT_err (ts : List Bytes) (hv : ∀ t ∈ ts, validTok t = true) (v : Val) (o pos : Nat)
-    (loc : Loc) (e : ResolveErr) (h : resolveT ts v o pos loc = .err e) :
-    ∃ k tok l n, ts[k]? = some tok ∧ walk v (ts.take k) = .ok (l, n) ∧
-      RFail n tok (pos + k) (o + off ts k) e := by
-  induction ts generalizing v o pos loc with
-  | nil => simp [resolveT] at h
-  | cons t rest ih =>
-    have ht := hv t (by simp)
-    have ih' := ih (fun u hu => hv u (by simp [hu]))
-    have step : ∀ (c : Val) (st : Step) (loc' : Loc),
-        resolveT rest c (o + (1 + t.length)) (pos + 1) loc' = .err e →
-        (∀ k l n, walk c (rest.take k) = .ok (l, n) → walk v (t :: rest.take k) = .ok (st :: l, n)) →
-        ∃ k tok l n, (t :: rest)[k]? = some tok ∧ walk v ((t :: rest).take k) = .ok (l, n) ∧
-          RFail n tok (pos + k) (o + off (t :: rest) k) e := by
-      intro c st loc' hr hw
-      obtain ⟨k, tok, l, n, h1, h2, h3⟩ := ih' _ _ _ _ hr
-      have e1 : pos + (k + 1) = pos + 1 + k := by omega
-      have e2 : o + off (t :: rest) (k + 1) = o + (1 + t.length) + off rest k := by
-        rw [off_succ]; omega
-      refine ⟨k + 1, tok, st :: l, n, by simpa using h1, by simpa using hw k l n h2, ?_⟩
-      rw [e1, e2]; exact h3
-    have here : ∀ n, v = n → RFail n t pos o e →
-        ∃ k tok l n, (t :: rest)[k]? = some tok ∧ walk v ((t :: rest).take k) = .ok (l, n) ∧
-          RFail n tok (pos + k) (o + off (t :: rest) k) e := by
-      intro n hn hf
-      subst hn
-      exact ⟨0, t, [], v, by simp, by cases v <;> simp [walk], by simpa [off_zero] using hf⟩
-    cases v with
-    | scalar s =>
-      simp only [resolveT] at h
-      cases h
-      exact here _ rfl (Or.inl ⟨s, rfl, rfl⟩)
-    | obj kvs =>
-      simp only [resolveT] at h
-      have hd : (Token.decoded t).bytes = dec t := toString_eq_dec t ht
-      cases hl : lookup (Token.decoded t).bytes kvs with
-      | none =>
-        rw [hl] at h; cases h
-        exact here _ rfl (Or.inr (Or.inl ⟨kvs, rfl, rfl⟩))
-      | some c =>
-        rw [hl] at h
-        refine step c (.key (dec t)) _ h ?_
-        intro k l n hw
-        rw [hd] at hl
-        simp [walk, hl, hw]
-    | arr xs =>
-      simp only [resolveT] at h
-      cases hti : Token.toIndex t with
-      | err src =>
-        rw [hti] at h; cases h
-        exact here _ rfl (Or.inr (Or.inr (Or.inl ⟨xs, src, rfl, hti, rfl⟩)))
-      | panic m => rw [hti] at h; cases h
-      | ok index =>
-        rw [hti] at h
-        simp only [] at h
-        cases hf : index.forLen xs.length with
-        | err s =>
-          rw [hf] at h; cases h
-          refine here _ rfl (Or.inr (Or.inr (Or.inr ?_)))
-          rcases forLen_err hf with ⟨rfl, rfl⟩ | ⟨n, rfl, rfl, hle⟩
-          · exact ⟨xs, xs.length, rfl, rfl, Or.inl ⟨toIndex_ok_next hti, rfl⟩⟩
-          · exact ⟨xs, n, rfl, rfl, Or.inr ⟨toIndex_ok_num hti, hle⟩⟩
-        | panic m => rw [hf] at h; cases h
-        | ok idx =>
-          rw [hf] at h
-          simp only [] at h
-          have := forLen_ok hf
-          subst this
-          have hp := toIndex_ok_num hti
-          cases hx : xs[idx]? with
-          | none => rw [hx] at h; cases h
-          | some c =>
-            rw [hx] at h
-            refine step c (.idx idx) _ h ?_
-            intro k l n hw
-            simp [walk, hp, hx, hw]
-
-
-/-- the error `e` is what one step of `assign` on node `n` with token `tok` reports -/
-def AFail (n : Val) (tok : Bytes) (pos o : Nat) (e : AssignErr) : Prop :=
-  (∃ xs src, n = .arr xs ∧ Index.fromStr tok = .err src ∧ e = .failedToParseIndex pos o src) ∨
-  (∃ xs idx, n = .arr xs ∧ e = .outOfBounds pos o ⟨xs.length, idx⟩ ∧ pidx tok = .num idx ∧
-    xs.length < idx)
-
-theorem forLenIncl_err {i : Index} {len : Nat} {s : OobErr} (h : i.forLenIncl len = .err s) :
-    ∃ n, i = .num n ∧ s = ⟨len, n⟩ ∧ len < n := by
-  cases i with
-  | next => simp [Index.forLenIncl] at h
-  | num n =>
-    simp only [Index.forLenIncl] at h
-    split at h
-    · cases h
-    · cases h; exact ⟨n, rfl, rfl, by omega⟩
-
-theorem forLenIncl_ok {i : Index} {len idx : Nat} (h : i.forLenIncl len = .ok idx) :
-    i = .num idx ∨ idx = len := by
-  cases i with
-  | next => simp [Index.forLenIncl] at h; exact Or.inr h.symm
-  | num n =>
-    simp only [Index.forLenIncl] at h
-    split at h
-    · cases h; exact Or.inl rfl
-    · cases h
-
-theorem assignT_err (ts : List Bytes) (hv : ∀ t ∈ ts, validTok t = true) (d x : Val) (o pos : Nat)
-    (e : AssignErr) (h : (assignT ts d x o pos).2 = .err e) :
-    ∃ k tok l n, ts[k]? = some tok ∧ walk d (ts.take k) = .ok (l, n) ∧
-      AFail n tok (pos + k) (o + off ts k) e := by
-  induction ts generalizing d o pos with
-  | nil => simp [assignT] at h
-  | cons t rest ih =>
-    have ht := hv t (by simp)
-    have ih' := ih (fun u hu => hv u (by simp [hu]))
-    have step : ∀ (c : Val) (st : Step),
-        (assignT rest c x (o + (1 + t.length)) (pos + 1)).2 = .err e →
-        (∀ k l n, walk c (rest.take k) = .ok (l, n) → walk d (t :: rest.take k) = .ok (st :: l, n)) →
-        ∃ k tok l n, (t :: rest)[k]? = some tok ∧ walk d ((t :: rest).take k) = .ok (l, n) ∧
-          AFail n tok (pos + k) (o + off (t :: rest) k) e := by
-      intro c st hr hw
-      obtain ⟨k, tok, l, n, h1, h2, h3⟩ := ih' _ _ _ hr
-      have e1 : pos + (k + 1) = pos + 1 + k := by omega
-      have e2 : o + off (t :: rest) (k + 1) = o + (1 + t.length) + off rest k := by
-        rw [off_succ]; omega
-      refine ⟨k + 1, tok, st :: l, n, by simpa using h1, by simpa using hw k l n h2, ?_⟩
-      rw [e1, e2]; exact h3
-    have here : ∀ n, d = n → AFail n t pos o e →
-        ∃ k tok l n, (t :: rest)[k]? = some tok ∧ walk d ((t :: rest).take k) = .ok (l, n) ∧
-          AFail n tok (pos + k) (o + off (t :: rest) k) e := by
-      intro n hn hf
-      subst hn
-      exact ⟨0, t, [], d, by simp, by cases d <;> simp [walk], by simpa [off_zero] using hf⟩
-    cases d with
-    | scalar s => simp [assignT] at h
-    | obj kvs =>
-      simp only [assignT] at h
-      have hd : Token.toString t = dec t := toString_eq_dec t ht
-      cases hl : lookup (Token.toString t) kvs with
-      | none => rw [hl] at h; cases h
-      | some c =>
-        rw [hl] at h
-        simp only [] at h
-        split at h
-        · cases h
-        · refine step c (.key (dec t)) h ?_
-          intro k l n hw
-          rw [hd] at hl
-          simp [walk, hl, hw]
-    | arr xs =>
-      simp only [assignT] at h
-      cases hti : Token.toIndex t with
-      | err src =>
-        rw [hti] at h; cases h
-        exact here _ rfl (Or.inl ⟨xs, src, rfl, hti, rfl⟩)
-      | panic m => rw [hti] at h; cases h
-      | ok index =>
-        rw [hti] at h
-        simp only [] at h
-        cases hf : index.forLenIncl xs.length with
-        | err s =>
-          rw [hf] at h; cases h
-          obtain ⟨n, rfl, rfl, hlt⟩ := forLenIncl_err hf
-          exact here _ rfl (Or.inr ⟨xs, n, rfl, rfl, toIndex_ok_num hti, hlt⟩)
-        | panic m => rw [hf] at h; cases h
-        | ok idx =>
-          rw [hf] at h
-          simp only [] at h
-          cases hx : xs[idx]? with
-          | none => rw [hx] at h; cases h
-          | some c =>
-            rw [hx] at h
-            simp only [] at h
-            have hp : pidx t = .num idx := by
-              rcases forLenIncl_ok hf with rfl | rfl
-              · exact toIndex_ok_num hti
-              · simp at hx
-            split at h
-            · cases h
-            · refine step c (.idx idx) h ?_
-              intro k l n hw
-              simp [walk, hp, hx, hw]
-
-theorem RFail_pos {n : Val} {tok : Bytes} {pos o : Nat} {e : ResolveErr} (h : RFail n tok pos o e) :
-    e.position = pos ∧ e.offset = o := by
-  rcases h with ⟨_, _, rfl⟩ | ⟨_, _, rfl⟩ | ⟨_, _, _, _, rfl⟩ | ⟨_, _, _, rfl, _⟩ <;>
-    exact ⟨rfl, rfl⟩
-
-theorem AFail_pos {n : Val} {tok : Bytes} {pos o : Nat} {e : AssignErr} (h : AFail n tok pos o e) :
-    e.position = pos ∧ e.offset = o := by
-  rcases h with ⟨_, _, _, _, rfl⟩ | ⟨_, _, _, rfl, _⟩ <;> exact ⟨rfl, rfl⟩
-
-theorem resolveT_core (D : Val) (p : Bytes) (e : ResolveErr) (hp : validPtr p = true)
-    (h : ∀ ts, p = ofToks ts → (∀ t ∈ ts, noSlash t) → resolveT ts D 0 0 [] = .err e) :
-    ∃ k tok l n, (tokens p)[k]? = some tok ∧ walk D ((tokens p).take k) = .ok (l, n) ∧
-      RFail n tok k (off (tokens p) k) e ∧ Locates p k (off (tokens p) k) (walkLabel p k (off (tokens p) k)) := by
-  obtain ⟨ts, hpe, htk, hns, hv⟩ := valid_decomp hp
-  obtain ⟨k, tok, l, n, h1, h2, h3⟩ := resolveT_err ts hv D 0 0 [] e (h ts hpe hns)
-  rw [htk]
-  simp only [Nat.zero_add] at h3
-  exact ⟨k, tok, l, n, h1, h2, h3, locates_of p ts hpe htk k tok h1⟩
-
-theorem resolve_core (D : Val) (p : Bytes) (e : ResolveErr) (hp : validPtr p = true)
-    (h : resolve D p = .err e) :
-    ∃ k tok l n, (tokens p)[k]? = some tok ∧ walk D ((tokens p).take k) = .ok (l, n) ∧
-      RFail n tok k (off (tokens p) k) e ∧ Locates p k (off (tokens p) k) (walkLabel p k (off (tokens p) k)) := by
-  refine resolveT_core D p e hp ?_
-  intro ts hpe hns
-  rw [← resolveLoop_ofToks ts hns, ← hpe]; exact h
-
-theorem resolveMut_core (D : Val) (p : Bytes) (e : ResolveErr) (hp : validPtr p = true)
-    (h : resolveMut D p = .err e) :
-    ∃ k tok l n, (tokens p)[k]? = some tok ∧ walk D ((tokens p).take k) = .ok (l, n) ∧
-      RFail n tok k (off (tokens p) k) e ∧ Locates p k (off (tokens p) k) (walkLabel p k (off (tokens p) k)) := by
-  refine resolveT_core D p e hp ?_
-  intro ts hpe hns
-  rw [← resolveMutLoop_ofToks ts hns, ← hpe]; exact h
-
-theorem assign_core (D v : Val) (p : Bytes) (e : AssignErr) (hp : validPtr p = true)
-    (h : (assign D p v).2 = .err e) :
-    ∃ k tok l n, (tokens p)[k]? = some tok ∧ walk D ((tokens p).take k) = .ok (l, n) ∧
-      AFail n tok k (off (tokens p) k) e ∧ Locates p k (off (tokens p) k) (walkLabel p k (off (tokens p) k)) := by
-  obtain ⟨ts, hpe, htk, hns, hv⟩ := valid_decomp hp
-  have hdec : ∀ t ∈ ts, Token.toString t = dec t := fun t ht => toString_eq_dec t (hv t ht)
-  have h' : (assignT ts D v 0 0).2 = .err e := by
-    rw [← assignValue_ofToks ts hns hdec, ← hpe]; exact h
-  obtain ⟨k, tok, l, n, h1, h2, h3⟩ := assignT_err ts hv D v 0 0 e h'
-  rw [htk]
-  simp only [Nat.zero_add] at h3
-  exact ⟨k, tok, l, n, h1, h2, h3, locates_of p ts hpe htk k tok h1⟩
 
 /-! ### the obligations -/
 
